@@ -165,11 +165,32 @@ func place(v []float32, off int) []float32 {
 
 func implF32gt(a, b float32) string { return vh.B01(a > b) }
 
-func implEncode(t, v []float32) string { return hexW64(vectorstore.VerifBinaryEncode(t, v)) }
+// encodeSafe: a panic of the code under test (index out of range ...) becomes an answer, not a crash
+func encodeSafe(t, v []float32) (enc []uint64, panicked string) {
+	defer func() {
+		if r := recover(); r != nil {
+			enc, panicked = nil, "panic: "+fmt.Sprint(r)
+		}
+	}()
+	return vectorstore.VerifBinaryEncode(t, v), ""
+}
+
+func implEncode(t, v []float32) string {
+	enc, p := encodeSafe(t, v)
+	if p != "" {
+		return p
+	}
+	return hexW64(enc)
+}
 
 func implBit(fn distance.BitDistFunc, x, y []uint64) string { return f32hex(fn(x, y)) }
 
-func implBq(metric string, t, x, y []float32) string {
+func implBq(metric string, t, x, y []float32) (out string) {
+	defer func() {
+		if r := recover(); r != nil {
+			out = "panic: " + fmt.Sprint(r)
+		}
+	}()
 	ex, ey := vectorstore.VerifBinaryEncode(t, x), vectorstore.VerifBinaryEncode(t, y)
 	ff, fp, err := vectorstore.VerifBinaryDistances(t, metric, "euclidean", x, y)
 	if err != nil {
@@ -688,7 +709,12 @@ func run(rng *vh.Rng, o *vh.Out, full bool) map[string]any {
 		if rng.Bool() {
 			metric = "jaccard"
 		}
-		ex, ey := vectorstore.VerifBinaryEncode(t, x), vectorstore.VerifBinaryEncode(t, y)
+		ex, px := encodeSafe(t, x)
+		ey, py := encodeSafe(t, y)
+		if px != "" || py != "" {
+			o.Fail(fmt.Sprintf("encode-panic:n=%d:nmod64=%d", n, n%64), fmt.Sprintf("encode of a %d-dimensional vector panics: %s%s", n, px, py), "encode "+hexW32(t)+" "+hexW32(x)+"\nencode "+hexW32(t)+" "+hexW32(y))
+			continue
+		}
 		checkEncode(o, t, x, ex)
 		checkEncode(o, t, y, ey)
 		checkBitMetrics(o, "enc", ex, ey)
@@ -808,9 +834,16 @@ func run(rng *vh.Rng, o *vh.Out, full bool) map[string]any {
 	}
 	// ---------------------------------------------------------------- haversine
 	pts := [][]float32{{0, 0}, {0, 180}, {0, -180}, {90, 0}, {-90, 0}, {90, 180}, {45, 0}, {-45, 180}, {51.5, -0.12}, {-33.87, 151.2}, {0, 179.99}, {0, -179.99}, {1e-6, 1e-6}, {89.999, 10}, {-89.999, -170}}
-	nh := 3000
+	// corpus: antipodal pairs on which sin^2 + cos*cos*sin^2 rounds to 1 + 2^-52 in float64 (asin of it is NaN
+	// unless the implementation clamps); found by the search step of this check on the pinned tree
+	for _, w := range [][4]float32{{-46.425, -80.596, 46.425, 99.404}, {47.783997, -28.938995, -47.783997, 151.061},
+		{-46.425, -178.019, 46.425, 1.9810028}, {47.783997, -95.467, -47.783997, 84.533}, {46.404007, 174.01501, -46.404007, -5.9849854}} {
+		checkHaversine(o, []float32{w[0], w[1]}, []float32{w[2], w[3]})
+		o.Stats["haversine"]++
+	}
+	nh := 40000
 	if full {
-		nh = 60000
+		nh = 400000
 	}
 	for i := 0; i < nh; i++ {
 		p := []float32{float32(rng.Intn(180001))/1000 - 90, float32(rng.Intn(360001))/1000 - 180}
